@@ -289,7 +289,8 @@ fn c10_q_userdata_flag_word_any() {
     // without text the bytes 4..8 are the colour, with text the bytes 7..11
     let ud = match crate::user_data::parse_userdata_chunk(&buf) {
         Ok(u) => u,
-        Err(_) => {
+        Err(e) => {
+            core::mem::forget(e);
             assert!(false, "user data chunk with enough bytes decodes for every flag word");
             return;
         }
